@@ -516,6 +516,10 @@ YR_API int yr_scanner_scan_mem_blocks(
 
     yr_stopwatch_start(&scanner->stopwatch);
 
+    // The entry point belongs to the data being scanned, it must not survive
+    // from a previous scan performed with this scanner.
+    scanner->entry_point = YR_UNDEFINED;
+
     block = iterator->first(iterator);
   }
 
